@@ -2420,6 +2420,14 @@ evhttp_get_body(struct evhttp_connection *evcon, struct evhttp_request *req)
 	/* If this is a request without a body, then we are done */
 	if (req->kind == EVHTTP_REQUEST &&
 	    !evhttp_method_may_have_body_(evcon, req->type)) {
+		/* ...unless the peer announces content that we are not going
+		 * to read: it would be taken for the next request. */
+		if (xfer_enc != NULL || evhttp_get_body_length(req) == -1 ||
+		    (req->ntoread > 0 && evhttp_find_header(
+			    req->input_headers, "Content-Length") != NULL)) {
+			evhttp_connection_fail_(evcon, EVREQ_HTTP_INVALID_HEADER);
+			return;
+		}
 		evhttp_connection_done(evcon);
 		return;
 	}
